@@ -71,8 +71,27 @@ def load_module(pid):
     return importlib.import_module('checks.' + MODULES[pid])
 
 
+class CaseTimeout(BaseException):
+    pass
+
+
+def _alarm(signum, frame):
+    raise CaseTimeout()
+
+
 def quiet_worker():
     warnings.simplefilter('ignore')
+    try:
+        import resource
+        lim = int(os.environ.get('VERIF_WORKER_MEM_GB', '6')) << 30
+        resource.setrlimit(resource.RLIMIT_AS, (lim, lim))
+    except Exception:
+        pass
+    try:
+        import signal
+        signal.signal(signal.SIGALRM, _alarm)
+    except Exception:
+        pass
     try:
         devnull = os.open(os.devnull, os.O_WRONLY)
         os.dup2(devnull, 2)  # student stderr / deprecation noise
@@ -163,7 +182,16 @@ class Collector:
         if self.task.isolate:
             res = _judge_forked(self.mod, case, self.task.timeout or 120)
         else:
-            res = _judge_plain(self.mod, case)
+            import signal
+            limit = int(getattr(self.mod, 'CASE_TIME_LIMIT', 120))
+            signal.alarm(limit)
+            try:
+                res = _judge_plain(self.mod, case)
+            except CaseTimeout:
+                raise RuntimeError('case exceeded %ss (harness guard, not a verdict): %s'
+                                   % (limit, json.dumps(case, default=repr)[:800]))
+            finally:
+                signal.alarm(0)
         return self.record(case, res)
 
     def record(self, case, res):
